@@ -1,548 +1,4 @@
-// GENERATED by bin/lib/c_derive.py from the definitions TLC emitted (spec/MC_DeriveModel.tla). Do not edit.
+//! One quarter of the generated corpus of C17.  `generated.rs` (next to Cargo.toml, git-ignored) is
+//! rendered by bin/lib/c_derive.py on every check run from the definitions TLC emitted.
 #![allow(dead_code, unused_imports, non_camel_case_types)]
-use avro_verif_harness::c17::{Runner, run_type};
-
-pub mod s0337d3eb42 {
-    use apache_avro::AvroSchema;
-    use serde::{Deserialize, Serialize};
-    use std::collections::HashMap;
-    #[derive(AvroSchema, Serialize, Deserialize)]
-    pub struct Rec {
-        #[avro(default = "true")]
-        pub very_tasty: bool,
-        pub z42: i32,
-    }
-}
-
-pub mod s09defe6f9e {
-    use apache_avro::AvroSchema;
-    use serde::{Deserialize, Serialize};
-    use std::collections::HashMap;
-    #[derive(AvroSchema, Serialize, Deserialize)]
-    pub struct A {
-        pub left: Bare,
-        pub right: Bare,
-    }
-    #[derive(AvroSchema, Serialize, Deserialize)]
-    #[avro(repr = "bare_union")]
-    pub enum Bare {
-        One,
-        Two(i32),
-        Item(String),
-        DarkBlue {
-            very_tasty: i64,
-        },
-    }
-}
-
-pub mod s10a13325aa {
-    use apache_avro::AvroSchema;
-    use serde::{Deserialize, Serialize};
-    use std::collections::HashMap;
-    #[derive(AvroSchema, Serialize, Deserialize)]
-    pub enum Color {
-        Red,
-        #[serde(skip)]
-        DarkBlue,
-        Z42,
-    }
-}
-
-pub mod s16f04fcfd6 {
-    use apache_avro::AvroSchema;
-    use serde::{Deserialize, Serialize};
-    use std::collections::HashMap;
-    #[derive(AvroSchema, Serialize, Deserialize)]
-    pub struct Rec {
-        #[serde(rename = "renamed", alias = "old_name")]
-        #[avro(doc = "Both.")]
-        pub very_tasty: i32,
-        pub z42: i32,
-    }
-}
-
-pub mod s1a62acdfc2 {
-    use apache_avro::AvroSchema;
-    use serde::{Deserialize, Serialize};
-    use std::collections::HashMap;
-    #[derive(AvroSchema, Serialize, Deserialize)]
-    pub struct Rec {
-        #[avro(default = "1.5")]
-        pub very_tasty: f64,
-        pub z42: i32,
-    }
-}
-
-pub mod s2a19dc00d6 {
-    use apache_avro::AvroSchema;
-    use serde::{Deserialize, Serialize};
-    use std::collections::HashMap;
-    #[derive(AvroSchema, Serialize, Deserialize)]
-    #[serde(rename_all = "lowercase")]
-    pub enum Shape {
-        One,
-        Two(i32),
-        MyItem(i32, String),
-        DarkBlue {
-            very_tasty: i64,
-            b: Option<String>,
-        },
-    }
-}
-
-pub mod s2b778f75de {
-    use apache_avro::AvroSchema;
-    use serde::{Deserialize, Serialize};
-    use std::collections::HashMap;
-    #[derive(AvroSchema, Serialize, Deserialize)]
-    #[serde(rename_all_fields = "camelCase")]
-    pub enum Shape {
-        One,
-        Two(i32),
-        MyItem(i32, String),
-        DarkBlue {
-            very_tasty: i64,
-            b: Option<String>,
-        },
-    }
-}
-
-pub mod s3565c3b2f2 {
-    use apache_avro::AvroSchema;
-    use serde::{Deserialize, Serialize};
-    use std::collections::HashMap;
-    #[derive(AvroSchema, Serialize, Deserialize)]
-    pub struct A {
-        pub left: Leaf,
-        #[serde(flatten)]
-        pub rest: B,
-    }
-    #[derive(AvroSchema, Serialize, Deserialize)]
-    pub struct B {
-        pub y: Leaf,
-    }
-    #[derive(AvroSchema, Serialize, Deserialize)]
-    pub struct Leaf {
-        pub x: i32,
-    }
-}
-
-pub mod s35e6fe19a6 {
-    use apache_avro::AvroSchema;
-    use serde::{Deserialize, Serialize};
-    use std::collections::HashMap;
-    #[derive(AvroSchema, Serialize, Deserialize)]
-    pub struct Rec {
-        #[serde(rename = "renamed")]
-        pub very_tasty: i32,
-        pub z42: i32,
-    }
-}
-
-pub mod s39853a0942 {
-    use apache_avro::AvroSchema;
-    use serde::{Deserialize, Serialize};
-    use std::collections::HashMap;
-    #[derive(AvroSchema, Serialize, Deserialize)]
-    pub struct Rec {
-        pub a: bool,
-        pub my_field: i32,
-    }
-}
-
-pub mod s407775adce {
-    use apache_avro::AvroSchema;
-    use serde::{Deserialize, Serialize};
-    use std::collections::HashMap;
-    #[derive(AvroSchema, Serialize, Deserialize)]
-    pub struct Rec {
-        #[avro(default = "[]")]
-        pub very_tasty: Vec<String>,
-        pub z42: i32,
-    }
-}
-
-pub mod s41468d7996 {
-    use apache_avro::AvroSchema;
-    use serde::{Deserialize, Serialize};
-    use std::collections::HashMap;
-    #[derive(AvroSchema, Serialize, Deserialize)]
-    pub struct Rec {
-        #[serde(flatten)]
-        pub rest: Inner,
-        pub z42: Option<i64>,
-    }
-    #[derive(AvroSchema, Serialize, Deserialize)]
-    pub struct Inner {
-        pub x: i32,
-        pub kind: String,
-    }
-}
-
-pub mod s44478c60da {
-    use apache_avro::AvroSchema;
-    use serde::{Deserialize, Serialize};
-    use std::collections::HashMap;
-    #[derive(AvroSchema, Serialize, Deserialize)]
-    #[avro(namespace = "ns")]
-    pub struct A {
-        pub b: B,
-        pub c: Color,
-    }
-    #[derive(AvroSchema, Serialize, Deserialize)]
-    pub struct B {
-        pub x: Leaf,
-    }
-    #[derive(AvroSchema, Serialize, Deserialize)]
-    pub struct Leaf {
-        pub x: i32,
-    }
-    #[derive(AvroSchema, Serialize, Deserialize)]
-    pub enum Color {
-        Red,
-        DarkBlue,
-        Z42,
-    }
-}
-
-pub mod s4a3f5969f2 {
-    use apache_avro::AvroSchema;
-    use serde::{Deserialize, Serialize};
-    use std::collections::HashMap;
-    #[derive(AvroSchema, Serialize, Deserialize)]
-    #[serde(rename_all = "UPPERCASE")]
-    pub struct Rec {
-        pub very_tasty: i32,
-        pub id: String,
-        pub z42: Option<i64>,
-    }
-}
-
-pub mod s57e0783ff6 {
-    use apache_avro::AvroSchema;
-    use serde::{Deserialize, Serialize};
-    use std::collections::HashMap;
-    #[derive(AvroSchema, Serialize, Deserialize)]
-    pub struct Rec {
-        #[avro(default = "42")]
-        pub very_tasty: i32,
-        pub z42: i32,
-    }
-}
-
-pub mod s6654d6ecd2 {
-    use apache_avro::AvroSchema;
-    use serde::{Deserialize, Serialize};
-    use std::collections::HashMap;
-    #[derive(AvroSchema, Serialize, Deserialize)]
-    pub struct Pair(pub u16, pub String);
-}
-
-pub mod s712d9b05ee {
-    use apache_avro::AvroSchema;
-    use serde::{Deserialize, Serialize};
-    use std::collections::HashMap;
-    #[derive(AvroSchema, Serialize, Deserialize)]
-    #[serde(rename_all = "SCREAMING_SNAKE_CASE")]
-    #[avro(namespace = "ns")]
-    pub struct Rec {
-        pub very_tasty: i32,
-        pub id: String,
-        pub z42: Option<i64>,
-    }
-}
-
-pub mod s75cf0e3a8e {
-    use apache_avro::AvroSchema;
-    use serde::{Deserialize, Serialize};
-    use std::collections::HashMap;
-    #[derive(AvroSchema, Serialize, Deserialize)]
-    #[serde(rename_all = "SCREAMING-KEBAB-CASE")]
-    pub struct Rec {
-        pub very_tasty: i32,
-        pub id: String,
-        pub z42: Option<i64>,
-    }
-}
-
-pub mod s7ab55c7c7e {
-    use apache_avro::AvroSchema;
-    use serde::{Deserialize, Serialize};
-    use std::collections::HashMap;
-    #[derive(AvroSchema, Serialize, Deserialize)]
-    pub struct A {
-        pub kids: Vec<A>,
-    }
-}
-
-pub mod s8a15efc1b6 {
-    use apache_avro::AvroSchema;
-    use serde::{Deserialize, Serialize};
-    use std::collections::HashMap;
-    #[derive(AvroSchema, Serialize, Deserialize)]
-    pub struct Rec {
-        pub a: Option<i64>,
-        pub my_field: i32,
-    }
-}
-
-pub mod s945814d502 {
-    use apache_avro::AvroSchema;
-    use serde::{Deserialize, Serialize};
-    use std::collections::HashMap;
-    #[derive(AvroSchema, Serialize, Deserialize)]
-    #[serde(rename_all = "lowercase")]
-    pub struct Rec {
-        pub very_tasty: i32,
-        pub id: String,
-        pub z42: Option<i64>,
-    }
-}
-
-pub mod sa45584bcf6 {
-    use apache_avro::AvroSchema;
-    use serde::{Deserialize, Serialize};
-    use std::collections::HashMap;
-    #[derive(AvroSchema, Serialize, Deserialize)]
-    #[serde(rename_all = "camelCase")]
-    pub enum Color {
-        Red,
-        DarkBlue,
-        Z42,
-    }
-}
-
-pub mod sb100c6f5b6 {
-    use apache_avro::AvroSchema;
-    use serde::{Deserialize, Serialize};
-    use std::collections::HashMap;
-    #[derive(AvroSchema, Serialize, Deserialize)]
-    #[serde(rename_all_fields = "camelCase")]
-    #[avro(repr = "bare_union")]
-    pub enum Bare {
-        One,
-        Two(i32),
-        Item(String),
-        DarkBlue {
-            very_tasty: i64,
-        },
-    }
-}
-
-pub mod sb816404336 {
-    use apache_avro::AvroSchema;
-    use serde::{Deserialize, Serialize};
-    use std::collections::HashMap;
-    #[derive(AvroSchema, Serialize, Deserialize)]
-    pub struct Rec {
-        #[serde(skip_serializing, default)]
-        #[avro(default = "42")]
-        pub very_tasty: i32,
-        pub z42: i32,
-    }
-}
-
-pub mod sbc7ea9e55e {
-    use apache_avro::AvroSchema;
-    use serde::{Deserialize, Serialize};
-    use std::collections::HashMap;
-    #[derive(AvroSchema, Serialize, Deserialize)]
-    pub struct Outer {
-        pub a: HashMap<String, Inner>,
-        pub id: i32,
-    }
-    #[derive(AvroSchema, Serialize, Deserialize)]
-    pub struct Inner {
-        pub x: i32,
-        pub kind: String,
-    }
-}
-
-pub mod sbda63dcbee {
-    use apache_avro::AvroSchema;
-    use serde::{Deserialize, Serialize};
-    use std::collections::HashMap;
-    #[derive(AvroSchema, Serialize, Deserialize)]
-    pub struct Nothing;
-}
-
-pub mod sbf8187d90e {
-    use apache_avro::AvroSchema;
-    use serde::{Deserialize, Serialize};
-    use std::collections::HashMap;
-    #[derive(AvroSchema, Serialize, Deserialize)]
-    pub enum Color {
-        Red,
-        DarkBlue,
-        #[serde(skip)]
-        Z42,
-    }
-}
-
-pub mod scb452a67ee {
-    use apache_avro::AvroSchema;
-    use serde::{Deserialize, Serialize};
-    use std::collections::HashMap;
-    #[derive(AvroSchema, Serialize, Deserialize)]
-    pub struct Rec {
-        #[serde(skip)]
-        pub very_tasty: i32,
-        pub z42: i32,
-    }
-}
-
-pub mod scca7cbe77a {
-    use apache_avro::AvroSchema;
-    use serde::{Deserialize, Serialize};
-    use std::collections::HashMap;
-    #[derive(AvroSchema, Serialize, Deserialize)]
-    #[serde(rename_all = "camelCase")]
-    pub struct Rec {
-        pub my_field: i32,
-        #[serde(flatten)]
-        pub rest: Inner,
-    }
-    #[derive(AvroSchema, Serialize, Deserialize)]
-    pub struct Inner {
-        pub x: i32,
-        pub kind: String,
-    }
-}
-
-pub mod sd69673d736 {
-    use apache_avro::AvroSchema;
-    use serde::{Deserialize, Serialize};
-    use std::collections::HashMap;
-    #[derive(AvroSchema, Serialize, Deserialize)]
-    #[serde(rename_all = "PascalCase")]
-    pub struct Rec {
-        #[serde(rename = "renamed")]
-        pub very_tasty: i32,
-        pub z42: i32,
-    }
-}
-
-pub mod sdf69c0816e {
-    use apache_avro::AvroSchema;
-    use serde::{Deserialize, Serialize};
-    use std::collections::HashMap;
-    #[derive(AvroSchema, Serialize, Deserialize)]
-    pub struct A {
-        #[serde(flatten)]
-        pub rest: Leaf,
-        pub left: Leaf,
-    }
-    #[derive(AvroSchema, Serialize, Deserialize)]
-    pub struct Leaf {
-        pub x: i32,
-    }
-}
-
-pub mod seb8f20d2da {
-    use apache_avro::AvroSchema;
-    use serde::{Deserialize, Serialize};
-    use std::collections::HashMap;
-    #[derive(AvroSchema, Serialize, Deserialize)]
-    pub struct Outer {
-        pub a: Vec<Trans>,
-        pub id: i32,
-    }
-    #[derive(AvroSchema, Serialize, Deserialize)]
-    #[serde(transparent)]
-    pub struct Trans {
-        pub inner: Color,
-    }
-    #[derive(AvroSchema, Serialize, Deserialize)]
-    pub enum Color {
-        Red,
-        DarkBlue,
-        Z42,
-    }
-}
-
-pub mod sedf724f13a {
-    use apache_avro::AvroSchema;
-    use serde::{Deserialize, Serialize};
-    use std::collections::HashMap;
-    #[derive(AvroSchema, Serialize, Deserialize)]
-    pub struct Outer {
-        pub a: Trans,
-        pub id: i32,
-    }
-    #[derive(AvroSchema, Serialize, Deserialize)]
-    #[serde(transparent)]
-    pub struct Trans {
-        #[serde(skip)]
-        pub x: i32,
-        pub inner: Inner,
-    }
-    #[derive(AvroSchema, Serialize, Deserialize)]
-    pub struct Inner {
-        pub x: i32,
-        pub kind: String,
-    }
-}
-
-pub mod sf42c428b3e {
-    use apache_avro::AvroSchema;
-    use serde::{Deserialize, Serialize};
-    use std::collections::HashMap;
-    #[derive(AvroSchema, Serialize, Deserialize)]
-    #[avro(namespace = "ns", doc = "A pair.")]
-    pub struct Pair(pub u16, pub String);
-}
-
-pub mod sf8b3fe68d2 {
-    use apache_avro::AvroSchema;
-    use serde::{Deserialize, Serialize};
-    use std::collections::HashMap;
-    #[derive(AvroSchema, Serialize, Deserialize)]
-    #[avro(repr = "union_of_records")]
-    pub enum Shape {
-        One,
-        Two(i32),
-        MyItem(i32, String),
-        DarkBlue {
-            very_tasty: i64,
-            b: Option<String>,
-        },
-    }
-}
-
-pub static REGISTRY: &[(&str, Runner)] = &[
-    ("s0337d3eb42", run_type::<s0337d3eb42::Rec> as Runner),
-    ("s09defe6f9e", run_type::<s09defe6f9e::A> as Runner),
-    ("s10a13325aa", run_type::<s10a13325aa::Color> as Runner),
-    ("s16f04fcfd6", run_type::<s16f04fcfd6::Rec> as Runner),
-    ("s1a62acdfc2", run_type::<s1a62acdfc2::Rec> as Runner),
-    ("s2a19dc00d6", run_type::<s2a19dc00d6::Shape> as Runner),
-    ("s2b778f75de", run_type::<s2b778f75de::Shape> as Runner),
-    ("s3565c3b2f2", run_type::<s3565c3b2f2::A> as Runner),
-    ("s35e6fe19a6", run_type::<s35e6fe19a6::Rec> as Runner),
-    ("s39853a0942", run_type::<s39853a0942::Rec> as Runner),
-    ("s407775adce", run_type::<s407775adce::Rec> as Runner),
-    ("s41468d7996", run_type::<s41468d7996::Rec> as Runner),
-    ("s44478c60da", run_type::<s44478c60da::A> as Runner),
-    ("s4a3f5969f2", run_type::<s4a3f5969f2::Rec> as Runner),
-    ("s57e0783ff6", run_type::<s57e0783ff6::Rec> as Runner),
-    ("s6654d6ecd2", run_type::<s6654d6ecd2::Pair> as Runner),
-    ("s712d9b05ee", run_type::<s712d9b05ee::Rec> as Runner),
-    ("s75cf0e3a8e", run_type::<s75cf0e3a8e::Rec> as Runner),
-    ("s7ab55c7c7e", run_type::<s7ab55c7c7e::A> as Runner),
-    ("s8a15efc1b6", run_type::<s8a15efc1b6::Rec> as Runner),
-    ("s945814d502", run_type::<s945814d502::Rec> as Runner),
-    ("sa45584bcf6", run_type::<sa45584bcf6::Color> as Runner),
-    ("sb100c6f5b6", run_type::<sb100c6f5b6::Bare> as Runner),
-    ("sb816404336", run_type::<sb816404336::Rec> as Runner),
-    ("sbc7ea9e55e", run_type::<sbc7ea9e55e::Outer> as Runner),
-    ("sbda63dcbee", run_type::<sbda63dcbee::Nothing> as Runner),
-    ("sbf8187d90e", run_type::<sbf8187d90e::Color> as Runner),
-    ("scb452a67ee", run_type::<scb452a67ee::Rec> as Runner),
-    ("scca7cbe77a", run_type::<scca7cbe77a::Rec> as Runner),
-    ("sd69673d736", run_type::<sd69673d736::Rec> as Runner),
-    ("sdf69c0816e", run_type::<sdf69c0816e::A> as Runner),
-    ("seb8f20d2da", run_type::<seb8f20d2da::Outer> as Runner),
-    ("sedf724f13a", run_type::<sedf724f13a::Outer> as Runner),
-    ("sf42c428b3e", run_type::<sf42c428b3e::Pair> as Runner),
-    ("sf8b3fe68d2", run_type::<sf8b3fe68d2::Shape> as Runner),
-];
+include!(concat!(env!("CARGO_MANIFEST_DIR"), "/generated.rs"));
